@@ -170,7 +170,7 @@ func c17PnJudge(args, real, drv json.RawMessage) *core.Verdict {
 
 var c17PnNames = []string{"", "dir", "my-app_1", "My App", "FOO", "_lead", "-x", "a.b", "...", "日本", "KelvinK", "9lives"}
 
-var c17PnFileNames = []*string{nil, sp(""), sp("one"), sp("Two.Name"), sp("${X}"), sp("$X-app"), sp("${COMPOSE_PROJECT_NAME}x"), sp("___"), sp("${UNSET}"), sp("${UNSET:-Dflt}")}
+var c17PnFileNames = []*string{nil, sp(""), sp("one"), sp("Two.Name"), sp("${X}"), sp("$X-app"), sp("${COMPOSE_PROJECT_NAME}x"), sp("___"), sp("${UNSET}"), sp("${UNSET:-Dflt}"), sp("${X:?need}"), sp("${bad")}
 
 func c17PnLattice(ctx *core.Ctx) {
 	envs := []*[][2]string{
@@ -180,7 +180,7 @@ func c17PnLattice(ctx *core.Ctx) {
 		{{"X", "_"}, {"COMPOSE_PROJECT_NAME", "fromenv"}},
 		{{"COMPOSE_PROJECT_NAME", "Bad Name"}, {"X", ""}},
 	}
-	probes := []string{"lit", "${COMPOSE_PROJECT_NAME}-p", "${X:-d}"}
+	probes := []string{"lit", "${COMPOSE_PROJECT_NAME}-p", "${X:-d}", "${UNSET:?probe}"}
 	n := 0
 	for _, name := range c17PnNames {
 		for _, imp := range []bool{false, true} {
@@ -192,6 +192,11 @@ func c17PnLattice(ctx *core.Ctx) {
 						if (fi+ei)%3 == 0 {
 							layouts = append(layouts, [][]c17Doc{{{Name: fn}}, {{Name: nil}}}, [][]c17Doc{{{Name: sp("first")}, {Name: fn}}})
 						}
+						tmpl := "absent"
+						if fn != nil {
+							tmpl = *fn
+						}
+						ctx.Count("pn-file-name=" + tmpl)
 						for li, files := range layouts {
 							a := c17PnArgs{Files: files, Env: env, Name: name, Imp: imp, Skip: skip, Probe: probes[(n+li)%len(probes)]}
 							n++
